@@ -1,9 +1,15 @@
 ---------------------------- MODULE Emit_Corrupt ----------------------------
-(* Writes the corruption universe of Corrupt.tla as JSON (IOEnv.OUT): {"catalogue", "pairseeds", "triples", "c02_closed"}.    *)
+(* Writes the corruption universe of Corrupt.tla as JSON (IOEnv.OUT): {"catalogue", "pairseeds", "triples", "c02_closed", "boundary"}.    *)
 EXTENDS Corrupt, Json, IOUtils, SequencesExt, TLC
 VARIABLE x
 Univ == [catalogue |-> SetToSeq(Catalogue), pairseeds |-> SetToSeq(PairSeeds), npairs |-> Cardinality(Pairs) \div 2, triples |-> SetToSeq(Triples),
-         c02_closed |-> SetToSeq(C02Closed)]
+         c02_closed |-> SetToSeq(C02Closed),
+         \* boundary catalogue (starting images of C01's own): images by kind, recipes and mandatory recipes by kind
+         boundary |-> [metabg |-> SetToSeq(MetaBgImages), longext |-> SetToSeq(LongImages), bigdir |-> SetToSeq(DirImages),
+                       recipes |-> [k \in DOMAIN Mandatory |-> SetToSeq(ImageRecipes(k))],
+                       mandatory |-> [k \in DOMAIN Mandatory |-> SetToSeq(Mandatory[k])],
+                       consts |-> [ext_init_max |-> ExtInitMaxLen, ext_uninit_max |-> ExtUninitMaxLen,
+                                   dx_root_limit |-> DxRootLimit(MinBlockSize, FALSE), dx_node_limit |-> DxNodeLimit(MinBlockSize, FALSE)]]]
 ASSUME JsonSerialize(IOEnv.OUT, Univ) /\ PrintT(<<"Emit_Corrupt", Cardinality(Catalogue), Cardinality(PairSeeds), Cardinality(Pairs) \div 2>>)
 Init == x = 0
 Next == x' = x /\ UNCHANGED x
